@@ -1,4 +1,4 @@
-package main
+package hlib
 
 // Rand is a small deterministic PRNG (splitmix64); every random choice of the
 // harness derives from one seed so that disagreements replay exactly.
